@@ -2,6 +2,7 @@ import PV.Model.Eval
 import PV.Model.Ops
 import PV.Model.Traverse
 import PV.Driver.GAOps
+import PV.Driver.SubstOps
 import PV.Driver.C13GroupOps
 import PV.Driver.MatchpyOps
 import PV.Driver.CseTallyOps
@@ -214,6 +215,7 @@ def handlers : List (Sexp → Option Sexp) :=
    , handleCseTally
    , handleMatchpy
    , handleC13Groups
+   , handleSubst
    -- HANDLERS
   ]
 
